@@ -703,7 +703,6 @@ fn main() {
         "gen" => gen(&a),
         "search" => search(&a),
         "probe" => probe(&a),
-        "probe2" => probe2(),
         _ => { eprintln!("c12: unknown mode"); std::process::exit(2); }
     }
 }
@@ -763,14 +762,19 @@ fn search(a: &Args) {
     let mut tried = 0u64;
     // each history costs a database on disk: the budget counts operations, not histories
     let budget = (a.budget / 40).clamp(500, 60_000);
-    while tried < budget && fails.len() < 40 {
+    let mut known_kept = 0usize;
+    let mut new_found = 0usize;
+    while tried < budget && new_found < 20 {
         let hs: Vec<Hist> = (0..400).map(|_| gen_history(&mut rng, true).0).collect();
         let all_obs = run_all(&hs, "search");
         for (h, obs) in hs.iter().zip(all_obs.iter()) {
             let (trace, ret, agrees, class) = judge(h, obs);
             if !fresh_increasing(&trace) || !fresh_increasing(&ret) {
+                // failures inside a recorded class (and behaving as the model says) are listed a few
+                // times only: the search is for failures that no finding explains
                 let c = if agrees { class } else { 0 };
-                fails.push(format!("{} class={}", show_hist(h), c));
+                if c == 0 { new_found += 1; fails.push(format!("{} class={}", show_hist(h), c)); }
+                else if known_kept < 10 { known_kept += 1; fails.push(format!("{} class={}", show_hist(h), c)); }
             }
             tried += 1;
         }
@@ -797,22 +801,4 @@ fn probe(a: &Args) {
         }
     }
     let _ = std::fs::remove_dir_all(&dir);
-}
-
-fn probe2() {
-    // what insert_batch rows look like when read back
-    for ddl in ["CREATE TABLE t (id BIGINT AUTO_INCREMENT, v BIGINT NOT NULL)", "CREATE TABLE t (id INTEGER AUTO_INCREMENT, v INTEGER NOT NULL)", "CREATE TABLE t (id INTEGER AUTO_INCREMENT, v BIGINT NOT NULL)"] {
-        let dir = tmp_dir("probe2");
-        let _ = std::fs::remove_dir_all(&dir);
-        let db = Database::create(dir.join("db")).unwrap();
-        db.execute(ddl).unwrap();
-        println!("{}", ddl);
-        println!("  sql insert -> {:?}", db.execute("INSERT INTO t (v) VALUES (100) RETURNING id").map(|x| format!("{:?}", x)).map_err(|e| format!("{:#}", e)));
-        let r = db.insert_batch("t", &[vec![OwnedValue::Int(50), OwnedValue::Int(400)], vec![OwnedValue::Int(51), OwnedValue::Int(401)]]);
-        println!("  insert_batch -> {:?}", r.map_err(|e| format!("{:#}", e)));
-        println!("    table: {:?}", db.query("SELECT id, v FROM t").map(|rows| rows.iter().map(|r| format!("{:?}", r.values)).collect::<Vec<_>>()).map_err(|e| format!("{:#}", e)));
-        println!("    filtered: {:?}", db.query("SELECT id, v FROM t WHERE v >= 400 AND v < 402").map(|rows| rows.iter().map(|r| format!("{:?}", r.values)).collect::<Vec<_>>()).map_err(|e| format!("{:#}", e)));
-        drop(db);
-        let _ = std::fs::remove_dir_all(&dir);
-    }
 }
